@@ -15,3 +15,45 @@ rec_total!(c07_record_12, 12);
 rec_total!(c07_record_13, 13);
 rec_total!(c07_record_14, 14);
 rec_total!(c07_record_20, 20);
+
+/// DtlsRecord::encode layout (RFC 6347 4.1): type | version | epoch | 48-bit seq | length | payload
+#[kani::proof]
+#[kani::unwind(24)]
+fn c03_record_encode_layout_4() {
+    let ct = match kani::any::<u8>() % 5 { 0 => ContentType::ChangeCipherSpec, 1 => ContentType::Alert, 2 => ContentType::Handshake,
+        3 => ContentType::ApplicationData, _ => ContentType::Heartbeat };
+    let pl: [u8; 4] = kani::any();
+    let seq = kani::any::<u64>() & 0xFFFF_FFFF_FFFF;
+    let r = DtlsRecord { content_type: ct, version: ProtocolVersion { major: kani::any(), minor: kani::any() }, epoch: kani::any(),
+        sequence_number: seq, payload: static_bytes_of(pl) };
+    let mut buf = BytesMut::with_capacity(32);
+    r.encode(&mut buf);
+    assert!(buf.len() == 17);
+    assert!(buf[0] == ct as u8 && buf[1] == r.version.major && buf[2] == r.version.minor);
+    assert!(buf[3..5] == r.epoch.to_be_bytes());
+    let s = seq.to_be_bytes();
+    assert!(buf[5..11] == s[2..8] && buf[11..13] == [0, 4] && buf[13..17] == pl);
+    core::mem::forget(buf);
+}
+/// decode on what encode produced (as a static Bytes) returns the same record and consumes it
+#[kani::proof]
+#[kani::unwind(24)]
+fn c03_record_decode_fields_17() {
+    let raw: [u8; 17] = kani::any();
+    let mut b = static_bytes_of(raw);
+    let r = DtlsRecord::decode(&mut b);
+    let len = u16::from_be_bytes([raw[11], raw[12]]) as usize;
+    match r {
+        Ok(Some(rec)) => {
+            assert!(len <= 4 && raw[0] >= 20 && raw[0] <= 24);
+            assert!(rec.content_type as u8 == raw[0] && rec.version.major == raw[1] && rec.version.minor == raw[2]);
+            assert!(rec.epoch == u16::from_be_bytes([raw[3], raw[4]]));
+            assert!(rec.sequence_number == u64::from_be_bytes([0, 0, raw[5], raw[6], raw[7], raw[8], raw[9], raw[10]]));
+            assert!(rec.payload[..] == raw[13..13 + len] && b.len() == 4 - len);
+            kani::cover!(len == 4);
+            core::mem::forget(rec);
+        }
+        Ok(None) => assert!(len > 4),
+        Err(_) => assert!(raw[0] < 20 || raw[0] > 24),
+    }
+}
